@@ -129,7 +129,7 @@ PROPS = {
         ],
     },
     "C12": {
-        "coq_targets": ["theories/Lang/Typing.vo"],
+        "coq_targets": ["theories/Lang/Typing.vo", "theories/Lang/TypingStmt.vo"],
         "harness": ["c12"],
         "tables": True,
         "disagreement_is_violation": True,
